@@ -8,7 +8,10 @@ TRACE_TLA = os.path.join(SPEC, "Trace_Volatile.tla")
 ESZ = [1, 2, 3, 4, 5, 6, 7, 8, 12, 16]
 ALIGNED = [(1, 1), (2, 1), (3, 1), (4, 1), (5, 1), (6, 1), (7, 1), (8, 1), (12, 1), (16, 1), (2, 2), (4, 2), (6, 2), (8, 2),
            (12, 2), (16, 2), (4, 4), (8, 4), (12, 4), (16, 4), (8, 8), (16, 8), (16, 16)]
-BIG = [U64 - 1, U64 - 2, U64 - 8, U64 - 4096, (1 << 63), (1 << 63) - 1, (1 << 63) + 1, (1 << 63) - 8, (1 << 63) + 4096]
+BIG = [U64 - 1, U64 - 2, U64 - 8, U64 - 4096, (1 << 63), (1 << 63) - 1, (1 << 63) + 1, (1 << 63) - 8, (1 << 63) + 4096,
+       # counts whose byte size wraps modulo 2^64 to something small: 2^64 / element size (+ a little)
+       (1 << 62), (1 << 62) + 1, (1 << 62) + 4, (1 << 61), (1 << 61) + 1, (1 << 61) + 2, (1 << 60), (1 << 60) + 1,
+       U64 // 3 + 1, U64 // 3 + 2, U64 // 6 + 1, U64 // 12 + 1, U64 // 12 + 2]
 
 
 def mc(ctx):
@@ -69,13 +72,9 @@ def gen(ctx):
                 if i == 0:
                     args["root"] = "region" if args["root"] == "region" else "heap"
                 prog.append({"op": a["op"], "a": args})
-        events = run_harness("volatile", prog, os.path.join(WORK, "gen_volatile_%s.ev.ndjson" % ctx.pid))
-        if len(events) != len(prog):
+        events = run_harness("volatile", prog, os.path.join(WORK, "gen_volatile_%s.ev.ndjson" % ctx.pid), ctx=ctx)
+        if len(events) != len(prog) and ctx.violations == 0:
             raise ToolError("harness returned %d events for %d program lines" % (len(events), len(prog)))
-        # the harness reports the actual base alignment; generated tests asked for a specific one
-        for e, p in zip(events, prog):
-            if e["op"] == "init" and e["a"]["b"] != p["a"]["b"]:
-                raise ToolError("harness could not realise base alignment %s" % p["a"]["b"])
         judge(ctx, "gent_volatile_" + ctx.pid, events)
         ctx.cov["gen_tests_replayed"] += covered
         ctx.cov["traces_validated_against_impl"] += len(hists)
@@ -220,7 +219,7 @@ def traces(ctx, zst=None):
     prog = []
     for _ in range(nhist):
         prog += rnd_history(ctx.rnd, nops, zst)
-    events = run_harness("volatile", prog, os.path.join(WORK, "tr_volatile_%s.ev.ndjson" % ctx.pid))
+    events = run_harness("volatile", prog, os.path.join(WORK, "tr_volatile_%s.ev.ndjson" % ctx.pid), ctx=ctx)
     skipped = sum(1 for e in events if e["r"].get("k") == "skip")
     chunk, k = [], 0
     for h in split_events(events):
